@@ -146,6 +146,43 @@ func c29(r *core.Run) {
 	r.Saw(core.FuncName(cl))
 	r.Eval(core.EdgeCount(cl))
 	address := cl.Params[0]
+	// captured variables are identified by what their cell in onFindNode holds, not by name
+	var mk *ssa.MakeClosure
+	core.EachInstr(fn, func(_ *ssa.BasicBlock, _ int, in ssa.Instruction) {
+		if m, ok := in.(*ssa.MakeClosure); ok && m.Fn == ssa.Value(cl) {
+			mk = m
+		}
+	})
+	cellHolds := func(cell ssa.Value, pred func(ssa.Value) bool) bool {
+		for _, u := range core.Uses(cell) {
+			if st, ok := u.(*ssa.Store); ok && st.Addr == cell && pred(st.Val) {
+				return true
+			}
+		}
+		return false
+	}
+	kinds := map[string]func(ssa.Value) bool{
+		// skip: []Address{peer.Address}
+		"skip": func(v ssa.Value) bool {
+			el := variadicElems(v)
+			if len(el) != 1 {
+				return false
+			}
+			fr, ok := core.AsField(core.Forward(el[0]))
+			return ok && fr.Name == "Address" && fr.Struct == "pkg/p2p.Peer"
+		},
+		// target: boson.NewAddress(req.Target)
+		"target": func(v ssa.Value) bool {
+			c, _ := core.CallOf(v)
+			if c == nil || !core.IsCallTo(c, "pkg/boson.NewAddress") {
+				return false
+			}
+			fr, ok := core.AsField(core.Forward(c.Call.Args[0]))
+			return ok && fr.Name == "Target"
+		},
+		// isPeerPublic: a bool computed in the handler
+		"isPeerPublic": func(v ssa.Value) bool { return v.Type().String() == "bool" },
+	}
 	isFree := func(name string) func(ssa.Value) bool {
 		return func(v ssa.Value) bool {
 			p, ok := core.LoadedFrom(v)
@@ -153,7 +190,15 @@ func c29(r *core.Run) {
 				return false
 			}
 			fv, ok := p.(*ssa.FreeVar)
-			return ok && fv.Name() == name
+			if !ok || mk == nil {
+				return false
+			}
+			for i, f := range cl.FreeVars {
+				if f == fv && i < len(mk.Bindings) {
+					return cellHolds(mk.Bindings[i], kinds[name])
+				}
+			}
+			return false
 		}
 	}
 	_, notSkipped := core.AtomEdges(cl, core.BoolCallAtom(func(c *ssa.Call) bool {
@@ -217,7 +262,7 @@ func c29(r *core.Run) {
 	// P1 skip list
 	var skipCell ssa.Value
 	core.EachInstr(fn, func(_ *ssa.BasicBlock, _ int, u ssa.Instruction) {
-		if a, ok := u.(*ssa.Alloc); ok && a.Comment == "skip" {
+		if a, ok := u.(*ssa.Alloc); ok && cellHolds(a, kinds["skip"]) {
 			skipCell = a
 		}
 	})
@@ -277,8 +322,8 @@ func c29(r *core.Run) {
 			}
 		}
 		check(fn, skipCell)
-		for _, fv := range cl.FreeVars {
-			if fv.Name() == "skip" {
+		for i, fv := range cl.FreeVars {
+			if mk != nil && i < len(mk.Bindings) && mk.Bindings[i] == skipCell {
 				check(cl, fv)
 			}
 		}
